@@ -48,8 +48,11 @@ PROPS = {
                        "the cone) on symbolic byte buffers sliced at a symbolic offset 0..8 of an 8-aligned buffer object, so each harness covers "
                        "every alignment and every content for every length up to its stated bound (<= 4 words); panics are failed checks. The "
                        "casts contain no length-dependent loop, which is why short buffers are representative, but that is an argument, not a "
-                       "discharged obligation. 'Rebuilt indexes answer identically' follows because JsonIndex::from_parts / "
-                       "BalancedParens::from_words depend only on the word contents (contracts of C04/C07).",
+                       "discharged obligation. Third sentence (rebuilt indexes answer as the originals), IB half: PROVED -- Verus unit c07_ib puts the real "
+                       "JsonIndex::from_parts under contract (stores exactly the given words and length, rank directory == cumulative popcount, "
+                       "invariant ib_wf) and every IB query is proved to depend on (ib, ib_len) only; a bounded Kani companion replays it on "
+                       "two-word bitmaps. BP half: BalancedParens::from_words is not under contract (the searches' contracts of C04 depend on "
+                       "words/len and the directories that build_bp_index derives from them).",
         "technique": "bounded stand-in of the contract family (Kani/CBMC harnesses over all inputs within a stated length bound); no unbounded contract within reach, see explanation",
         "trusted_base": COMMON_TRUST + ["CBMC's pointer model: the byte buffer object is at least 8-aligned, so slice offsets 0..8 enumerate all alignments (checked by the aligned/misaligned harness pair)"],
         "assumptions": ["word-vector length <= 4 in the harness arrays (alignment and length arithmetic: all cases)"],
